@@ -24,6 +24,7 @@ one canonical form of constructs that maintainers routinely rewrite into each ot
   S4  a void function body / a loop body that ends with `if (a && b) { X }` -> `if (!a) return / continue; if (!b) ...; X` (guard-clause form)
   S8  if (a > b) a = b; -> a = min(a, b); if (a < b) a = b; -> a = max(a, b)   (integers)
   S10 if (c) x = a; else x = b; -> x = c ? a : b ;  S13 if (c) b = true; -> b |= c ; if (c) b = false; -> b &= !c  (bool b)
+  S14 `T x = a; if (c) x = b;` -> `T x = c ? b : a;`   (a a plain read)
   S12 `if (ok) return; throw X;` at the end of a void function -> `if (!ok) throw X;`
   S5  `while (c) body` and `for (; c; ) body` are both exported as For nodes with empty init / increment
 
@@ -564,7 +565,36 @@ def _while_to_for_pre(stmts):
                 c = dict(c)
                 c["b"] = {"k": "Block", "s": body[:-1] + [last], "loc": (b or {}).get("loc")}
         tmp.append(c)
-    return [_step_to_inc(x) for x in _while_to_for(tmp)]
+    return _decl_then_override([_step_to_inc(x) for x in _while_to_for(tmp)])
+
+
+def _decl_then_override(stmts):
+    """S14: `T x = a; if (c) x = b;`  ->  `T x = c ? b : a;`   (a a plain read, c not reading x)"""
+    if LIGHT[0]:
+        return stmts
+    out = []
+    i = 0
+    while i < len(stmts):
+        s = stmts[i]
+        nxt = stmts[i + 1] if i + 1 < len(stmts) else None
+        if isinstance(s, dict) and s.get("k") == "Decl" and len(s.get("vars", [])) == 1 and "d" in s["vars"][0] and s["vars"][0].get("init") is not None \
+                and isinstance(nxt, dict) and nxt.get("k") == "If" and nxt.get("e") is None:
+            v = s["vars"][0]
+            tb = _stmts(nxt.get("t"))
+            ini = _strip(v["init"])
+            plain = isinstance(ini, dict) and (ini.get("k") in ("Int", "Bool", "Float", "Ref") or (ini.get("k") == "Member" and _pure_container(ini)) or "v" in ini)
+            if plain and len(tb) == 1 and isinstance(tb[0], dict) and tb[0].get("k") == "Expr":
+                a = _strip(tb[0].get("e"))
+                if isinstance(a, dict) and a.get("k") == "Assign" and a.get("op") == "=" and isinstance(_strip(a.get("l")), dict) and _strip(a["l"]).get("k") == "Ref" \
+                        and _strip(a["l"]).get("d") == v["d"] and not _refs_to(nxt["c"], v["d"]) and not _refs_to(a["r"], v["d"]):
+                    v2 = dict(v)
+                    v2["init"] = {"k": "Cond", "c": nxt["c"], "a": a["r"], "e": v["init"], "loc": nxt.get("loc"), "t": v.get("t"), "sz": v.get("sz"), "synth": True}
+                    out.append(dict(s, vars=[v2]))
+                    i += 2
+                    continue
+        out.append(s)
+        i += 1
+    return out
 
 
 def norm_stmt(s):
@@ -688,7 +718,8 @@ def norm_stmt(s):
             c = _strip(s["c"])
             if len(body) == 1 and isinstance(body[0], dict) and body[0].get("k") == "Expr" and isinstance(c, dict) and c.get("k") == "Bin" and c.get("op") in ("<", ">"):
                 a = _strip(body[0].get("e"))
-                if isinstance(a, dict) and a.get("k") == "Assign" and a.get("op") == "=" and not _is_float(_strip(a.get("l"))) and not _is_float(_strip(a.get("r"))):
+                if isinstance(a, dict) and a.get("k") == "Assign" and a.get("op") == "=":
+                    # also for floating operands: `if (a < b) a = b;` is a = (a < b) ? b : a, the definition of std::max(a, b)
                     big, small = (c["l"], c["r"]) if c["op"] == ">" else (c["r"], c["l"])
                     pick = None
                     if _same(a["l"], big) and _same(a["r"], small):
